@@ -288,11 +288,44 @@ func runSelftest() int {
 			}
 		}
 	}
+	// model validation (native, non-deciding): the generated specification encoder must
+	// produce exactly the bytes of protobuf-go's reflection-driven deterministic encoder
+	// (dynamicpb) on populated, partially populated and empty messages of every type
+	specChecked := 0
+	units2, _, err := codecUnits([]string{"C02"}, "quick", "codec", func(g *gen, msgs []*Message) string {
+		src := g.CodecSource([]string{"C02"}, nil, false, nil)
+		return src
+	})
+	if err != nil {
+		fmt.Println("selftest: harness generation failed:", err)
+		return 2
+	}
+	for _, u := range units2 {
+		var sb strings.Builder
+		sb.WriteString("package " + u.PkgName + "\n\nimport (\n\t\"bytes\"\n\t\"fmt\"\n\t\"testing\"\n\n\t\"google.golang.org/protobuf/proto\"\n\t\"google.golang.org/protobuf/types/dynamicpb\"\n)\n\n")
+		sb.WriteString("func vhSpecCheck(t *testing.T, name string, x proto.Message, spec []byte) {\n\tdyn := dynamicpb.NewMessage(x.ProtoReflect().Descriptor())\n\tproto.Merge(dyn, x)\n\twant, err := proto.MarshalOptions{Deterministic: true}.Marshal(dyn)\n\tif err != nil || !bytes.Equal(want, spec) {\n\t\tt.Errorf(\"%s: spec %x, reference %x (%v)\", name, spec, want, err)\n\t}\n\tfmt.Println(\"VHSPEC\", name)\n}\n\n")
+		sb.WriteString("func TestVHSpecValidation(t *testing.T) {\n")
+		src := u.Files["zz_vh_codec.go"]
+		for _, mm := range regexp.MustCompile(`(?m)^func vhFill_(\w+)\(`).FindAllStringSubmatch(src, -1) {
+			n := mm[1]
+			sb.WriteString(fmt.Sprintf("\t{\n\t\tx := &%s{}\n\t\tvhSpecCheck(t, \"%s.empty\", x, vhSpec_%s(nil, x))\n\t\tvhFill_%s(x)\n\t\tvhSpecCheck(t, \"%s.filled\", x, vhSpec_%s(nil, x))\n\t\tx.unknownFields = []byte{0x80, 0xa4, 0x3c, 0x07}\n\t\tvhSpecCheck(t, \"%s.unknown\", x, vhSpec_%s(nil, x))\n\t\tvhFill2_%s(x)\n\t\tvhSpecCheck(t, \"%s.maps\", x, vhSpec_%s(nil, x))\n\t}\n", n, n, n, n, n, n, n, n, n, n, n))
+		}
+		sb.WriteString("}\n")
+		out := nativeRun(&ReplayFile{PkgDir: u.PkgDir, PkgName: u.PkgName, Files: u.Files, Model: map[string]string{}}, sb.String(), "^TestVHSpecValidation$")
+		n := strings.Count(out, "VHSPEC ")
+		specChecked += n
+		if n == 0 || strings.Contains(out, "--- FAIL") || !strings.Contains(out, "\nok") && !strings.Contains(out, "PASS") {
+			os.WriteFile("/tmp/symgo-selftest-fail.txt", []byte(out), 0o644)
+			fmt.Printf("selftest: specification encoder disagrees with dynamicpb in %s (full output in /tmp/symgo-selftest-fail.txt):\n%s\n", u.PkgName, trunc(out, 1500))
+			bad++
+		}
+	}
 	if bad > 0 {
-		fmt.Println("selftest FAILED: the executor disagrees with the native build; nothing it says is believed")
+		fmt.Println("selftest FAILED: the executor or the specification disagrees with the native build; nothing they say is believed")
 		return 1
 	}
-	fmt.Printf("selftest ok: %d harnesses, %d recorded values agree between the executor and the native build\n", len(fns), total)
+	total += specChecked
+	fmt.Printf("selftest ok: %d harnesses, %d recorded values agree between the executor and the native build (incl. %d messages whose specification encoding equals dynamicpb's)\n", len(fns), total, specChecked)
 	return 0
 }
 
